@@ -191,6 +191,8 @@ class C11(Prop):
         core.tie_run(stats, "stream", ["gen-badka", "T"], lambda c, t: True, cmp)
         # a slow reader and a silent peer: the read loop stops only when the socket is drained
         core.tie_run(stats, "stream", ["gen-slowreader", "T"], lambda c, t: True, cmp)
+        # pieces of the stream that arrive while a long signal callback runs wait for it; none is dropped
+        core.tie_run(stats, "node", ["gen-sparse"], lambda c, t: True, cmp)
         if th:
             core.tie_run(stats, "stream", ["gen-e2e", seed + 5, 40, "T", "big"], self.nontrivial, cmp)
 
@@ -339,6 +341,8 @@ class C13(Prop):
         core.tie_run(stats, "udp", ["gen-sweep", 65490, 65530, 1, 16, "v6"], lambda c, t: "over" in t or "max" in t, cmp)
         # the Udp corpus: exact maximum on every path, and the send after an ICMP bounce (ResourceNotFound, nothing sent)
         core.tie_run(stats, "udp", ["gen", seed + 61, 12], lambda c, t: "over" in t or "max" in t or "absent-peer" in t, cmp)
+        # several threads on one FramedTcp endpoint with frames larger than the socket buffers: Sent means whole
+        core.tie_run(stats, "stream", ["gen-mt", seed + 62, 3, "F"], lambda c, t: True, cmp)
 
     def search(self, tier, seed):
         st = core.Stats()
